@@ -1,4 +1,5 @@
 #!/bin/bash
+V="${VERIF_ROOT:-$(cd "$(dirname "${BASH_SOURCE[0]}")/.." && pwd)}"; export VERIF_ROOT="$V"
 # build_impl.sh <outdir> <variant> : compile /repo's working tree + the C driver.
 #   variant: O1 | O0 | O2 | O3 | noslack (O1 without SAFECLIB_STR_NULL_SLACK) | asan
 set -e
@@ -23,4 +24,4 @@ done > "$out/list.txt"
 if ! xargs -P 16 -L 1 sh -c 'gcc -c '"$CF"' "$0" -o "$1" 2>>'"$out"'/cc.err || echo "$0" >> '"$out"'/cc.failed' < "$out/list.txt"; then fail=1; fi
 if [ -s "$out/cc.failed" ]; then echo "COMPILE-FAILED: $(cat "$out/cc.failed" | tr '\n' ' ')"; fi
 rm -f "$out/libimpl.a"; ar rcs "$out/libimpl.a" "$out"/obj/*.o
-gcc $opt -w -I"$out/inc" -I"$REPO" -I/verif/harness /verif/harness/impl_driver.c -Wl,--whole-archive "$out/libimpl.a" -Wl,--no-whole-archive -o "$out/impl_driver" -lffi -no-pie -Wl,--wrap=malloc,--wrap=free,--wrap=realloc,--wrap=calloc -Wl,-Map="$out/driver.map" ${VERIF_DRIVER_LDFLAGS}
+gcc $opt -w -I"$out/inc" -I"$REPO" -I$V/harness $V/harness/impl_driver.c -Wl,--whole-archive "$out/libimpl.a" -Wl,--no-whole-archive -o "$out/impl_driver" -lffi -no-pie -Wl,--wrap=malloc,--wrap=free,--wrap=realloc,--wrap=calloc -Wl,-Map="$out/driver.map" ${VERIF_DRIVER_LDFLAGS}
